@@ -193,7 +193,35 @@ def rules(ctx, tier):
         bad = [a for a in site.term["args"] if g.node_of_operand(b, a) in tainted]
         r.check(not bad, "temp-name", b, "temp file at %s is created from the staging dir only" % site_where(site),
                 "a key-typed parameter flows into the temp file creation at %s" % site_where(site), site_where(site))
-    r.need(1, "temp file creation site")
+        # the name is random and the creation exclusive: the library default, unless a builder says otherwise
+        from ..prov import Slicer
+        sl = Slicer(ctx.world, b, follow_local=False)
+        chain = []
+        cur = site
+        for _ in range(12):
+            if not cur.term["args"]:
+                break
+            lv = [l for l in sl.leaves_of_operand(cur.term["args"][0])]
+            nxt = [l for l in lv if l[0] == "call" and (l[1] or "").startswith("tempfile::Builder::")]
+            if len(nxt) != 1 or len(lv) != 1:
+                break
+            from ..core import Site
+            cur = Site(b, nxt[0][2], b.blocks[nxt[0][2]]["term"])
+            chain.append(cur)
+        weak = []
+        if "custom" in (e.mode or ()):
+            weak.append("the file is created by a caller-supplied function (no exclusive-create guarantee)")
+        for c in chain:
+            if (c.path or "").endswith("::rand_bytes"):
+                a = c.term["args"][1] if len(c.term["args"]) > 1 else {}
+                v = a.get("const", {}).get("v") if "const" in a else None
+                if v is None or v < 4:
+                    weak.append("rand_bytes(%s): the name is not random" % ("?" if v is None else v))
+        r.check(not weak, "temp-unique", b,
+                "temp file at %s gets a fresh random name and is created exclusively" % site_where(site),
+                "the staging file created at %s is not private to its transaction: %s" % (site_where(site), "; ".join(weak)),
+                site_where(site))
+    r.need(2, "temp file creation site: name inputs + uniqueness")
     out.append(r.finish())
     return out
 
